@@ -304,16 +304,28 @@ Definition set_agree (init : tstate) (others : list tstate) (tr : mtree tstate)
    after every step the live items are (U live) \ (U tombstones) of the states absorbed so far,
    the tombstones are their union, nothing is both live and tombstoned; any merge tree over
    the same states gives the same; all backends say the same *)
+Definition set_res_ok (ss : list tstate) (live tomb : list N) : bool :=
+  seteqb live (spec_live ss) && seteqb tomb (nodup N.eq_dec (all_tomb ss)) && disjb live tomb.
+
 Definition set_step_ok (ss : list tstate) (o : sobs (list N)) : bool :=
-  seteqb (so_live o) (spec_live ss) && seteqb (so_tomb o) (nodup N.eq_dec (all_tomb ss)) &&
-  disjb (so_live o) (so_tomb o).
+  set_res_ok ss (so_live o) (so_tomb o).
+
+(* the changed flags along a history, judged on the implementation's own revealed states with
+   the lattice's equality: the flag is true exactly when the receiver is no longer equal to
+   what it was (LatLaws.ch_spec, i.e. C02 for the tombstone lattices) *)
+Fixpoint flags_ok Lv (L : LatOps (Lv * list N)) (prev : Lv * list N) (obs : list (sobs Lv)) : bool :=
+  match obs with
+  | [] => true
+  | o :: r =>
+    Bool.eqb (so_ch o) (negb (eqb L (so_live o, so_tomb o) prev)) &&
+    flags_ok L (so_live o, so_tomb o) r
+  end.
 
 Definition C05_set_holds_b (init : tstate) (others : list tstate)
     (steps : list (list (sobs (list N)))) (trees : list tstate) : bool :=
   forallb (fun i => all2 set_step_ok (prefixes [init] others) i) steps &&
-  forallb (fun r => seteqb (fst r) (spec_live (init :: others)) &&
-                    seteqb (snd r) (nodup N.eq_dec (all_tomb (init :: others))) &&
-                    disjb (fst r) (snd r)) trees.
+  forallb (fun i => flags_ok settomb_ops init i) steps &&
+  forallb (fun r => set_res_ok (init :: others) (fst r) (snd r)) trees.
 
 Definition chk_set (init : tstate) (others : list tstate) (tr : mtree tstate)
     (steps : list (list (sobs (list N)))) (trees : list tstate) : N :=
@@ -372,6 +384,7 @@ Section MapChk.
       (steps : list (list (sobs (list (N * V))))) (trees : list (mstate V)) : bool :=
     forallb (fun i => all2 (fun ss o => map_res_ok ss (so_live o) (so_tomb o))
                            (prefixes [init] others) i) steps &&
+    forallb (fun i => flags_ok (maptomb_ops LV) init i) steps &&
     forallb (fun r => map_res_ok (init :: others) (fst r) (snd r)) trees.
 
   Definition chk_map (init : mstate V) (others : list (mstate V)) (tr : mtree (mstate V))
